@@ -185,8 +185,37 @@ def run_job(job):
         shutil.rmtree(workdir, ignore_errors=True)
 
 
+def run_dfs(job):
+    """stateless depth-first enumeration of ALL schedules of a (small) world: every choice point (which call
+    completes next, which sender a wildcard receive matches, eager / synchronous) is branched on"""
+    limit = job.get("limit", 20000)
+    prefix, count, outcomes, bad, exhausted = [], 0, {}, [], False
+    while count < limit:
+        j = dict(job, id=f"{job['id']}_{count}", schedule=dict(job.get("schedule", {}), prefix=list(prefix), policy="low"),
+                 want_trace=False)
+        res = run_job(j)
+        count += 1
+        key = json.dumps({"r": res["results"].get("0"), "e": sorted(res["errors"]), "d": bool(res["deadlock"]),
+                          "u": len(res["unreceived"])}, sort_keys=True)
+        outcomes[key] = outcomes.get(key, 0) + 1
+        if (res["deadlock"] or res["errors"] or res["unreceived"]) and len(bad) < 3:
+            bad.append({"choices": res["choices"], "deadlock": res["deadlock"], "errors": res["errors"],
+                        "unreceived": res["unreceived"][:3]})
+        log = res["choices"]          # [(kind, n, i)] of this run; find the last choice that can be advanced
+        k = len(log) - 1
+        while k >= 0 and log[k][2] + 1 >= log[k][1]:
+            k -= 1
+        if k < 0:
+            exhausted = True
+            break
+        prefix = [c[2] for c in log[:k]] + [log[k][2] + 1]
+    return {"id": job["id"], "dfs": True, "schedules": count, "exhausted": exhausted, "bad": bad,
+            "outcomes": [{"outcome": json.loads(k), "count": v} for k, v in outcomes.items()]}
+
+
 for line in sys.stdin:
     line = line.strip()
     if not line:
         continue
-    print("RESULT " + json.dumps(run_job(json.loads(line)), default=str), flush=True)
+    _job = json.loads(line)
+    print("RESULT " + json.dumps(run_dfs(_job) if _job.get("dfs") else run_job(_job), default=str), flush=True)
